@@ -31,20 +31,20 @@ static const struct halg algs[] = {
 };
 
 #define MAXCTX 72
-static const struct halg *A;
-static int style; /* 0 family/internal symbols (legacy signature), 1 isal_ signature */
-static void *f_init, *f_submit, *f_flush;
-static gbuf mgr_g, ctx_g[MAXCTX], seg_g[MAXCTX], outp_g;
-static int seg_live[MAXCTX], seg_huge[MAXCTX];
-static int nctx;
-static uint8_t *img_before[MAXCTX];
-static uint8_t *mgr_before;
-static uint64_t ud_val[MAXCTX];
-static int started[MAXCTX]; /* a submit on this context has been accepted at least once: its digest is API-defined */
+static __thread const struct halg *A;
+static __thread int style; /* 0 family/internal symbols (legacy signature), 1 isal_ signature */
+static __thread void *f_init, *f_submit, *f_flush;
+static __thread gbuf mgr_g, ctx_g[MAXCTX], seg_g[MAXCTX], outp_g;
+static __thread int seg_live[MAXCTX], seg_huge[MAXCTX];
+static __thread int nctx;
+static __thread uint8_t *img_before[MAXCTX];
+static __thread uint8_t *mgr_before;
+static __thread uint64_t ud_val[MAXCTX];
+static __thread int started[MAXCTX]; /* a submit on this context has been accepted at least once: its digest is API-defined */
 
 /* a 4 GiB + window of virtual memory that repeats one 1 MiB pattern file (C15) */
-static uint8_t *huge_base;
-static uint32_t huge_pat;
+static __thread uint8_t *huge_base;
+static __thread uint32_t huge_pat;
 static uint8_t *
 huge_window(uint32_t b)
 {
